@@ -274,7 +274,7 @@ func (p *parser) optionalSemicolon() {
 
 func (p *parser) semicolon() {
 	if p.token != token.RIGHT_PARENTHESIS && p.token != token.RIGHT_BRACE {
-		if p.implicitSemicolon {
+		if p.implicitSemicolon && p.token != token.SEMICOLON {
 			p.implicitSemicolon = false
 			return
 		}
